@@ -14,7 +14,7 @@ RULE = (
     "bank end, empty blocks, under LoROM, HiROM and .map configurations (incl. a HiROM system-area window), plus a directed family of pure "
     "*=/@=/data sequences; each accepted program is judged by (1) the producer/consumer conservation checker over the T-node emit log vs "
     "the write_block calls (exactly-once, in order, block offset = mapped offset of the address after the *=) and (2) the reference "
-    "assembler's predicted block sequence; distinct by hash of the source; non-trivial = accepted with at least one non-empty block"
+    "assembler's predicted block sequence (a block opened by *= to RAM must continue at the current output position); distinct by hash of the source; non-trivial = accepted with at least one non-empty block"
 )
 ASSUMPTIONS = [
     "vf/ref/mapping.py offsets; the file offset of a block opened by *= to a RAM bank is unjudged (its content and order are judged)",
